@@ -59,6 +59,13 @@ Theorem C11_no_upload_left : forall t p, uploads_at p (null_uploads t) = [].
 Proof. exact no_upload_left. Qed.
 Print Assumptions C11_no_upload_left.
 
+(* substituting each file back at the paths the map lists reproduces the converted tree
+   (guard: dict keys unique at every level — true of every Python dict and pydantic dump) *)
+Theorem C11_separate_fill_roundtrip : forall t, wf_keys t = true -> forall nulled st,
+  separate [] t ([], []) = (nulled, st) -> fill st [] nulled = t.
+Proof. exact separate_fill_roundtrip. Qed.
+Print Assumptions C11_separate_fill_roundtrip.
+
 (* multipart iff some Upload is reachable: files (and the map) are empty exactly then *)
 Theorem C11_multipart_iff_upload : forall t p files fmap,
   separate p t ([], []) = (null_uploads t, (files, fmap)) ->
